@@ -170,6 +170,14 @@ func vfC03Alphabet(thorough bool) []vfOp {
 	}
 	a = append(a, vfOp{Op: "softlink", Path: "/s", Target: "/a"}, vfOp{Op: "softlink", Path: "/a/s", Target: "/dangling"},
 		vfOp{Op: "extlink", Path: "/e", Target: "/obj"}, vfOp{Op: "densegroup", Path: "/dg", Target: "/b"})
+	// hard links whose target is a link object or a dense group (their headers grow by the
+	// reference count message like any other object's)
+	for _, t := range []string{"/s", "/e", "/dg"} {
+		a = append(a, vfOp{Op: "hardlink", Path: "/hs", Target: t})
+	}
+	// a nested target whose parent may be missing, a dataset or a group without that child,
+	// while the root group holds an object with the same leaf name
+	a = append(a, vfOp{Op: "hardlink", Path: "/hn", Target: "/b/a"})
 	if thorough {
 		a = append(a, vfOp{Op: "hardlink", Path: "/a/a/up", Target: "/a"}, vfOp{Op: "mkgroup", Path: "/a/"})
 	}
